@@ -86,6 +86,9 @@ func drawOp(t *rapid.T, w OpWeights, label string, hs int, exact bool) POp {
 			}
 			op.Txs = append(op.Txs, drawTx(t, fmt.Sprintf("%s.%d", label, j), hs, exact))
 		}
+		if kind == KAddMulti && m > 0 {
+			op.LateClose = rapid.IntRange(0, 2).Draw(t, "lateClose") == 0
+		}
 	case KCompactRange:
 		op.A = rapid.IntRange(0, 7).Draw(t, "a")
 		op.B = rapid.IntRange(0, 7).Draw(t, "b")
@@ -208,6 +211,7 @@ func drawOpsSched(t *rapid.T, nprocs int) SchedSpec {
 // compactions whose result is EMPTY (the list only shrinks), stacks that become empty
 // again, and reloads that open no new table actually occur.
 func cancelFamily(t *rapid.T, c *Case, hs int) {
+	c.Family = "cancelling-transactions"
 	names := []string{"refs/heads/a", "refs/heads/b", "HEAD"}
 	mk := func() HTx {
 		tx := HTx{}
